@@ -852,7 +852,9 @@ theorem inv_recreateP (s : Series) (ps : List Period) (vars : VarArg) (s' : Seri
   unfold Series.recreateP at h
   simp only [bind_ok] at h
   obtain ⟨data, _, h2⟩ := h
-  exact inv_setDataP _ ps _ .all s' (inv_new _ _) h2
+  split at h2
+  · simp only [pure, Except.pure, Except.ok.injEq] at h2; subst h2; exact inv_new _ _
+  · exact inv_setDataP _ ps _ .all s' (inv_new _ _) h2
 
 theorem inv_broadcastVariants (s : Series) (n : Nat) (s' : Series) (hI : Inv s)
     (h : s.broadcastVariants n = .ok s') : Inv s' := by
@@ -1895,7 +1897,7 @@ theorem fillColumn_length (m : FillMethod) (col : List Cell) : (fillColumn m col
   simp [fillColumn]
 
 /-- observed cells are never touched -/
-theorem fillColumn_obs (m : FillMethod) (col : List Cell) (i : Nat) (x : Rat) (h : colAt col i = some x) :
+theorem fillColumn_obs (m : FillMethod) (col : List Cell) (i : Nat) (x : Num) (h : colAt col i = some x) :
     colAt (fillColumn m col) i = some x := by
   have hi : i < col.length := by
     apply Nat.lt_of_not_le
